@@ -80,6 +80,16 @@ fn weights(prop: &str) -> [u32; 7] {
 }
 
 pub fn gen_case(prop: &str, rng: &mut Rng, corpus: &Corpus, thorough: bool) -> Case {
+    let mut c = gen_case_plain(prop, rng, corpus, thorough);
+    if prop == "C04" && rng.chance(1, 2) {
+        // "every other character is a comment": ASCII, control and multi-byte UTF-8 text anywhere,
+        // in particular inside loops that are skipped
+        c.code = c12_comment(rng, &c.code).0;
+    }
+    c
+}
+
+fn gen_case_plain(prop: &str, rng: &mut Rng, corpus: &Corpus, thorough: bool) -> Case {
     let w = weights(prop);
     let fam = [Family::Grammar, Family::Structured, Family::Pressure, Family::Roaming, Family::Scan, Family::Diverge, Family::Mutant][rng.weighted(&w)];
     match fam {
@@ -305,7 +315,8 @@ pub fn diff(args: &Args) -> i32 {
         let case = if args.get("no-corpus").is_none() && idx < ncorpus {
             let it = &corpus.items[idx as usize];
             let bits = if it.1.is_some() { 8 } else if let Some(&b) = corpus.bits.get(&it.0) { b } else { *rng.pick(&[8u32, 8, 16, 32, 64]) };
-            Case { code: it.0.clone(), bits, family: Family::Corpus, fixed_input: it.1.clone() }
+            let code = if prop == "C04" && idx % 2 == 1 { c12_comment(&mut rng, &it.0).0 } else { it.0.clone() };
+            Case { code, bits, family: Family::Corpus, fixed_input: it.1.clone() }
         } else {
             gen_case(&prop, &mut rng, &corpus, args.thorough)
         };
@@ -752,7 +763,7 @@ pub fn specdump(args: &Args) -> i32 {
                 Status::Cap => "cap",
             };
             let evs: Vec<String> = sp.events.iter().map(|e| e.to_string()).collect();
-            println!("{}\t{}\t{}\t{}\t{}", c.bits, json::hex(input), st, evs.join(","), c.code);
+            println!("{}\t{}\t{}\t{}\t{}", c.bits, json::hex(input), st, evs.join(","), json::hex(c.code.as_bytes()));
         }
     }
     0
